@@ -40,7 +40,7 @@ impl Backend for OneObject {
                 if let Some(k) = self.short_at {
                     d.truncate(k);
                 }
-                Reply::Object { data: d, last_modified: Some(s3sim::rfc2822_ms(core.now_ms() - 4000)) }
+                Reply::Object { data: d, last_modified: Some(s3sim::rfc2822_ms(core.now_ms() - 4000)), cut_at: None }
             }
             _ => s3sim::status_reply(403, None),
         }
